@@ -50,8 +50,8 @@ theorem StagedL.node {s0 g0 s t g} (hst : StagedL s0 g0 s t g) (h0 : SimL s0 g0)
   have hsub0 : ∀ p ∈ g0.ext, p ∈ g.ext := by
     intro p hp; rw [hst.extEq]; exact List.mem_append_right _ hp
   have h1 : s.lookupInternal x = none := by
-    unfold Engine.lookupInternal IdMap.lookup
-    rw [hid, h0.e2i]
+    unfold Engine.lookupInternal
+    rw [hid, h0.e2i x]
     apply lookup_eq_none_of_not_mem_keys
     intro p hp
     obtain ⟨q, hq, rfl⟩ := List.mem_map.mp hp
@@ -82,7 +82,7 @@ theorem StagedL.node {s0 g0 s t g} (hst : StagedL s0 g0 s t g) (h0 : SimL s0 g0)
   rw [hg']
   have hcl := hst.created_lt
   have hlabmem := mem_labelsAfterNode g lab
-  refine { next := ?_, extEq := ?_, ids := ?_, extPt := ?_, extLt := ?_, extNZ := ?_, extND := ?_, labels := ?_,
+  refine { next := ?_, extEq := ?_, ids := ?_, extPt := ?_, extLt := ?_, extNZ := ?_, extND := ?_, extIdND := ?_, labels := ?_,
            labelsInt := ?_, labelsLt := ?_, addOK := ?_, delOK := ?_, createdLid := ?_, deadLt := ?_,
            small := hst.small }
   · show g.next + 1 = g0.next + (t.created ++ [(x, lid, g.next)]).length
@@ -144,6 +144,13 @@ theorem StagedL.node {s0 g0 s t g} (hst : StagedL s0 g0 s t g) (h0 : SimL s0 g0)
     intro hm
     obtain ⟨q, hq, hqx⟩ := List.mem_map.mp hm
     exact hfresh q hq hqx
+  · show (((g.next, x) :: g.ext).map (·.1)).Nodup
+    rw [List.map_cons, List.nodup_cons]
+    refine ⟨?_, hst.extIdND⟩
+    intro hm
+    obtain ⟨q, hq, hqx⟩ := List.mem_map.mp hm
+    have := hst.extLt q hq
+    simp only at hqx; omega
   · intro n lid' nm h hn' hd
     have hn'' : n < g.next + 1 := hn'
     have hd' : n ∉ g.dead := hd
